@@ -369,6 +369,10 @@ func mergeSwaggerProps(primary *spec.Swagger, m *spec.Swagger) []string {
 
 //nolint:unparam
 func mergeExternalDocs(primary *spec.ExternalDocumentation, m *spec.ExternalDocumentation) []string {
+	if m == nil {
+		return nil
+	}
+
 	if primary.Description == "" {
 		primary.Description = m.Description
 	}
